@@ -30,6 +30,12 @@ def run(ctx):
             if kind != "renumber":
                 j = 0
             cases.append({"n": n, "fan": fan, "fault": {"kind": kind, "i": min(i, n - 1), "j": min(j, n - 1)}})
+    if not ctx.replay:
+        # directed: deep chains and wide trees at the ends of the property's ranges (1..60 frames, fan-out 1..10)
+        for n in (31, 32, 33, 34, 35, 59, 60):
+            for fan in (1, 2, 10):
+                cases.append({"n": n, "fan": fan, "fault": {"kind": "none", "i": 0, "j": 0}})
+                cases.append({"n": n, "fan": fan, "fault": {"kind": "drop", "i": n - 1, "j": 0}})
     casep = ctx.write_ndjson("cases.ndjson", cases)
     ov = ctx.overlay(main_files=["helpers_test.go", "c14_test.go"])
     b = ctx.go_build(".", ov, name="main_c14")
